@@ -53,6 +53,13 @@ ODD_PAGE = ("# odd whitespace\n\n"
 # every priority with every kind that keeps it in the text form
 PRIO_PAGE = "# priorities\n\n" + "".join("%s P%d todo of kind %s with priority %d\n" % (k, n, {"o": "open", "<": "blocked", ">": "parent"}[k], n)
                                           for k in "o<>" for n in range(10)) + "\n"
+# new notes (no ZID yet) that start with a long creation date, with continuation lines, bullets and inner double spaces:
+# what the index stores for them at `db create` is what queries emit afterwards
+DATED_PAGE = ("# dated new notes\n\n"
+              "- 2024-05-10 Buy milk  and bread\n  * when:: tomorrow morning\n  * where:: corner shop\n"
+              "o P3 2024-05-11 dated todo with a continuation\n  second line of it\n"
+              "- 2024-05-12 single line dated note\n"
+              "x 2024-05-13 done  dated\n  * after the double space\n")
 KIND_WHERES = {"(o | x | - | ~ | < | >)": None, "o": "o", "-": "-", "(o | x)": "ox", "(- | ~ | <)": "-~<"}
 ORDERS = ["", " O none", " O alpha", " O create", " O modify alpha", " O type priority", " O priority"]
 
@@ -66,7 +73,7 @@ def real_pipeline(rng, oc):
     from harness.implrun import write_tree, read_tree
     today = dt.date(*TODAY)
     with Z.tmpdir("c12_") as d:
-        files = {"odd.zo": ODD_PAGE, "prio.zo": PRIO_PAGE,
+        files = {"odd.zo": ODD_PAGE, "prio.zo": PRIO_PAGE, "dated.zo": DATED_PAGE,
                  "gen.zo": pagegen.render(pagegen.gen_page(rng, max_sections=2)),
                  "sub/more.zo": pagegen.render(pagegen.gen_page(rng, max_sections=1))}
         write_tree(d, files)
